@@ -246,7 +246,24 @@ def judge(case, faults, out, n_optimizer_evaluations):
     elif plan.ok_vectors and got not in plan.ok_vectors:
         near = min(max(abs(a - b) for a, b in zip(got, v)) for v in plan.ok_vectors)
         vs.append(V("result-parameters-were-never-evaluated-without-error", distance_to_nearest_evaluated=near, **ctx))
-    # datasets consistent with those parameters
+    # datasets consistent with those parameters: every array of every result dataset against the independent reference
+    # evaluated at the reported parameter values (a failed evaluation may have left parts of the providers behind)
+    if only_raise and all(np.isfinite(got)):
+        try:
+            from vf.checks import c03
+
+            vals = {p.label: float(p.value) for p in res.optimized_parameters.all()}
+            ref = S.reference(out["spec"], vals=vals)
+            if np.isfinite(ref["cond"]) and ref["cond"] < 1e8:
+                tol = S.tolerance(ref, 2.0)
+                for d in out["spec"]["datasets"]:
+                    ginfo = ref["groups"][d["group"]]
+                    x_eff = ginfo["mapping"][d["label"]] if ginfo["linked"] else list(d["global_axis"])
+                    for v in c03.check_dataset(out["spec"], d, res.data[d["label"]], ref["datasets"][d["label"]], tol, x_eff):
+                        vs.append(dict(v, signature="result-dataset-not-from-the-reported-parameters/" + v["signature"], detail=dict(v.get("detail", {}), **ctx)))
+                        break
+        except (S.OutOfDomain, np.linalg.LinAlgError):
+            pass
     try:
         from glotaran.optimization.optimizer import Optimizer
         from glotaran.project import Scheme
